@@ -1046,7 +1046,20 @@ class ReducedDensityMatrixPropagator(MatrixData, Saveable):
             cutoff_indx = \
             self.TimeAxis.nearest(self.RelaxationTensor.cutoff_time)
         else:
-            cutoff_indx = self.TimeAxis.length
+            sbi = self.RelaxationTensor.SystemBathInteraction
+            cutoff_indx = sbi.TimeAxis.length
+
+        #
+        # The operators are sampled on the time axis of the bath, exactly
+        # as the tensor of the four-index form
+        #
+        sysstep = self.RelaxationTensor.SystemBathInteraction.TimeAxis.step
+        Nref_max = round(self.TimeAxis.step/sysstep)
+        if Nref_max % self.Nref == 0:
+            stride = Nref_max//self.Nref
+        else:
+            raise Exception("Incompatible number of refinement steps")
+        dt = sysstep*stride
 
         Km = self.RelaxationTensor.Km
         # Hermite conjugated K_m (the transposition of the real operators
@@ -1061,19 +1074,19 @@ class ReducedDensityMatrixPropagator(MatrixData, Saveable):
 
         for ii in range(1, self.Nt): 
 
-            Lm = self.RelaxationTensor.Lm[indxR,:,:,:]
-            Ld = self.RelaxationTensor.Ld[indxR,:,:,:]
-       
             for jj in range(0, self.Nref):
                 
+                Lm = self.RelaxationTensor.Lm[indxR,:,:,:]
+                Ld = self.RelaxationTensor.Ld[indxR,:,:,:]
+       
                 for ll in range(1, L+1):
                     
-                    rhoY =  - _COM(HH, ll, self.dt,rho1) 
+                    rhoY =  - _COM(HH, ll, dt, rho1) 
                     
                     #(1j*self.dt/ll)*(numpy.dot(HH,rho1) 
                     #                         - numpy.dot(rho1,HH))
                     
-                    _OTI(rhoY, Km, Kd, Lm, Ld, ll, self.dt, rho1)
+                    _OTI(rhoY, Km, Kd, Lm, Ld, ll, dt, rho1)
                     
                     # for mm in range(Nm):
                         
@@ -1089,10 +1102,13 @@ class ReducedDensityMatrixPropagator(MatrixData, Saveable):
                     rho2 = rho2 + rho1
                 rho1 = rho2    
                 
+                if indxR < cutoff_indx-1:                      
+                    indxR += stride
+                else:
+                    indxR = cutoff_indx-1
+
             pr.data[indx,:,:] = rho2 
             indx += 1             
-            if indxR < cutoff_indx-1:                      
-                indxR += 1             
 
         if self.Hamiltonian.has_rwa:
             pr.is_in_rwa = True
